@@ -220,9 +220,10 @@ RefMismatchReexpressed == Done =>
         LET b == Base(gene, r.pos)
             n0 == Cardinality({j \in 1..2 : Called(r)[j] = 0})
             k0 == <<r.pos, b \o ">" \o r.ref[1]>>
-        IN  \* the REF allele is credited as a substitution of the RefSeq base ...
-            /\ Support(gene, E, k0) + (IF \E m \in gene.mnps : k0 \in CompKeys(m) THEN 2 ELSE 0) >= n0
-            /\ (n0 > 0 /\ ~\E m \in gene.mnps : k0 \in CompKeys(m)) => Get(muts, k0, 0) >= UNIT * n0
+        IN  \* the REF allele is credited as a substitution of the RefSeq base (unless that substitution
+            \* is folded into a catalogued multi-substitution) ...
+            /\ (~\E m \in gene.mnps : k0 \in CompKeys(m)) =>
+                  (Support(gene, E, k0) >= n0 /\ Get(muts, k0, 0) >= UNIT * n0)
             \* ... and nothing is spelled against the record's own REF
             /\ \A x \in DNA : Get(muts, <<r.pos, r.ref[1] \o ">" \o x>>, 0) = 0
 OrderIndependent == Done => Canon(FinalState(gene, file)) = Canon(FinalState(gene, Reverse(file)))
